@@ -18,6 +18,7 @@ RULE = ("round trip: FULL product 3 networks x versions 0..16 x every allowed pr
 ASSUMPTIONS = ["vf/ref/bech32_ref.py transcribes the BIP173/BIP350 reference decoder (validated on the BIP vectors in the selftest); "
                "only the HRPs bc, tb, bcrt are 'supported networks'"]
 OBLIGATIONS = {
+    "history_sequences": "operation sequences (non-initial process states) explored",
     "short_program_2_5": "a v1+ program of 2..5 bytes round-tripped", "all_zero_32": "an all-zero 32-byte program round-tripped",
     "nonalphabet_version_char": "a non-alphabet character in the version position", "data_part_7_chars": "a 7-character data part with valid checksum",
     "mutant_still_valid": "a mutated string that is itself a valid address (must be accepted)", "non_ascii": "a non-ASCII byte in an address",
@@ -101,7 +102,21 @@ CASES = {"rt": chk_rt, "str": chk_str}
 
 
 def run_case(kind, case):
+    if kind == "seq":
+        from vf import seqexplore
+        return seqexplore.replay(run_case, case)
     return CASES[kind](case)
+
+
+def seq_ops(job):
+    seed = job["seed"]
+    bs = bases(seed)
+    ops = [("rt", {"net": "mainnet", "v": 0, "prog": filler(seed, "c06-s20", 20).hex()}), ("rt", {"net": "testnet", "v": 1, "prog": filler(seed, "c06-s32", 32).hex()}),
+           ("rt", {"net": "regtest", "v": 16, "prog": "0001"}), ("rt", {"net": "mainnet", "v": 1, "prog": "00" * 32}),
+           ("str", {"s": bs[0].hex(), "what": "valid"}), ("str", {"s": bs[2].upper().hex(), "what": "valid upper"}),
+           ("str", {"s": (bs[2][:-1] + b"q").hex(), "what": "bad checksum"}), ("str", {"s": B.encode_segwit("bc", 1, bytes(20), const=1).hex(), "what": "wrong constant"}),
+           ("str", {"s": b"bc1\x00".hex(), "what": "junk"}), ("str", {"s": bs[4].hex(), "what": "valid v1"})]
+    return ops
 
 
 def contents(seed, n):
@@ -236,10 +251,15 @@ def jobs(tier, seed):
             js.append({"name": f"subst2/{i}/{sh}", "part": "subst2", "idx": i, "shard": [sh, 12], "weight": 10})
     js += [{"name": "crafted", "part": "crafted", "weight": 4}, {"name": "short", "part": "short", "weight": 6},
            {"name": "vectors", "part": "vectors"}]
+    from vf.runner import seq_jobs
+    js += seq_jobs(2, weight=2)
     return js
 
 
 def run_job(job):
+    if job["part"] == "seq":
+        from vf.runner import run_seq_job
+        return run_seq_job(job, seq_ops(job), run_case)
     acc = Acc(job)
     seed = job["seed"]
     if job["part"] == "rt":
